@@ -93,14 +93,18 @@ type behaviour struct {
 	Steps  []step         `json:"steps"`
 	NMsgs  map[string]int `json:"nmsgs"`
 	Restarts int          `json:"restarts"`
+	Stops    int          `json:"stops"`
+	Pills    int          `json:"pills"`
 }
 
 var producerPoint = map[string]string{"Call": "call", "Swap": "mpsc.enq.swap", "Link": "mpsc.enq.link",
 	"PTSLoad": "ds.ts.load", "PTSCas": "ds.ts.cas", "Push": "turn.push"}
 var turnPoint = map[string]string{"Take": "ds.take.cas", "DeqSys": "mpsc.deq", "DeqUser": "mpsc.deq", "Enter": "h.enter", "Exit": "h.exit",
 	"FinReset": "ds.reset", "FinEmptyU": "mpsc.isempty", "FinEmptyS": "mpsc.isempty", "TTSLoad": "ds.ts.load", "TTSCas": "ds.ts.cas",
-	"Yield": "ds.yield", "Resched": "turn.resched"}
-var restartPoint = map[string]string{"RCall": "rcall", "RStop": "ps.enter", "RWait": "restart.wait", "RInit": "restart.init", "RReset": "ds.reset",
+	"Yield": "ds.yield", "Resched": "turn.resched", "TLock": "stop.lock", "TPsEnter": "ps.enter", "TPsExit": "ps.exit"}
+var stopPoint = map[string]string{"SCall": "scall", "SLock": "stop.lock", "SPsEnter": "ps.enter", "SPsExit": "ps.exit"}
+var killPoint = map[string]string{"KCall": "kcall", "KSwap": "mpsc.enq.swap", "KLink": "mpsc.enq.link", "KTSLoad": "ds.ts.load", "KTSCas": "ds.ts.cas", "KPush": "turn.push"}
+var restartPoint = map[string]string{"RCall": "rcall", "RLock": "stop.lock", "RPsEnter": "ps.enter", "RPsExit": "ps.exit", "RWait": "restart.wait", "RInit": "restart.init", "RReset": "ds.reset",
 	"RPostStart": "mpsc.enq.swap", "RPSLink": "mpsc.enq.link", "RTSLoad": "ds.ts.load", "RTSCas": "ds.ts.cas", "RPush": "turn.push"}
 
 type stats struct {
@@ -150,7 +154,7 @@ func replay(sys actor.ActorSystem, behaviours []behaviour, w *vtrace.Writer, st 
 		s.Control(system)
 		s.AdoptAt("ds.take.cas", "t")
 		s.DetachAt("turn.end")
-		s.SkipPoints("turn.begin", "turn.release", "ps.exit")
+		s.SkipPoints("turn.begin", "turn.release")
 		s.Obs = func(thread, point string, obj any, a, bb int64) {
 			switch point {
 			case "turn.begin":
@@ -193,6 +197,34 @@ func replay(sys actor.ActorSystem, behaviours []behaviour, w *vtrace.Writer, st 
 				fatal(err)
 			}
 		}
+		if b.Stops > 0 {
+			if _, err := s.Go("s", func() {
+				s.Yield("scall", 0, 0)
+				w.Emit(map[string]any{"ev": "stopcall", "id": 0, "g": 0, "t": "s"})
+				err := pid.Shutdown(ctx)
+				ok := 0
+				if err == nil {
+					ok = 1
+				}
+				w.Emit(map[string]any{"ev": "stopret", "id": 0, "g": ok, "t": "s"})
+			}); err != nil {
+				fatal(err)
+			}
+		}
+		if b.Pills > 0 {
+			if _, err := s.Go("k", func() {
+				s.Yield("kcall", 0, 0)
+				w.Emit(map[string]any{"ev": "pillcall", "id": 0, "g": 0, "t": "k"})
+				err := actor.Tell(ctx, pid, new(actor.PoisonPill))
+				ok := 0
+				if err == nil {
+					ok = 1
+				}
+				w.Emit(map[string]any{"ev": "pillret", "id": 0, "g": ok, "t": "k"})
+			}); err != nil {
+				fatal(err)
+			}
+		}
 		// token k of the model = k-th adopted worker
 		tokens := map[int]string{}
 		ntok := 0
@@ -231,8 +263,17 @@ func replay(sys actor.ActorSystem, behaviours []behaviour, w *vtrace.Writer, st 
 					}
 				}
 			} else {
-				t = "r"
-				want = restartPoint[x.A]
+				switch x.A[0] {
+				case 'S':
+					t, want = "s", stopPoint[x.A]
+				case 'K':
+					t, want = "k", killPoint[x.A]
+					if x.A == "KSwap" || x.A == "KLink" {
+						wantObj = system
+					}
+				default:
+					t, want = "r", restartPoint[x.A]
+				}
 			}
 			if drift != "" {
 				break
@@ -267,7 +308,7 @@ func replay(sys actor.ActorSystem, behaviours []behaviour, w *vtrace.Writer, st 
 				break
 			}
 			st.Steps++
-			if x.A == "Push" || x.A == "Resched" || x.A == "RPush" {
+			if x.A == "Push" || x.A == "Resched" || x.A == "RPush" || x.A == "KPush" {
 				if !adoptOne() {
 					drift = x.A + ":no-worker-arrived"
 					break
@@ -319,7 +360,7 @@ func newMailboxOpt(kind string) actor.SpawnOption {
 	return nil
 }
 
-func stress(sys actor.ActorSystem, histories, nprod, nmsgs int, seed int64, w *vtrace.Writer, mailbox string, restarts bool, st *stats) {
+func stress(sys actor.ActorSystem, histories, nprod, nmsgs int, seed int64, w *vtrace.Writer, mailbox string, mode int, st *stats) {
 	ctx := context.Background()
 	rng := rand.New(rand.NewSource(seed))
 	rec := &recorder{w: w}
@@ -382,7 +423,36 @@ func stress(sys actor.ActorSystem, histories, nprod, nmsgs int, seed int64, w *v
 				}
 			}()
 		}
-		if restarts && rng.Intn(2) == 0 {
+		if mode == 2 && rng.Intn(2) == 0 { // external Stop racing the traffic
+			wg.Add(1)
+			d := rng.Intn(4)
+			go func() {
+				defer wg.Done()
+				for y := 0; y < d; y++ {
+					runtime.Gosched()
+				}
+				w.Emit(map[string]any{"ev": "stopcall", "id": 0, "g": 0, "t": "s"})
+				err := pid.Shutdown(ctx)
+				ok := 0
+				if err == nil {
+					ok = 1
+				}
+				w.Emit(map[string]any{"ev": "stopret", "id": 0, "g": ok, "t": "s"})
+			}()
+		}
+		if mode == 3 && rng.Intn(2) == 0 { // PoisonPill racing the traffic
+			wg.Add(1)
+			d := rng.Intn(4)
+			go func() {
+				defer wg.Done()
+				for y := 0; y < d; y++ {
+					runtime.Gosched()
+				}
+				w.Emit(map[string]any{"ev": "pillcall", "id": 0, "g": 0, "t": "k"})
+				_ = actor.Tell(ctx, pid, new(actor.PoisonPill))
+			}()
+		}
+		if mode == 1 && rng.Intn(2) == 0 {
 			wg.Add(1)
 			go func() {
 				defer wg.Done()
@@ -396,11 +466,15 @@ func stress(sys actor.ActorSystem, histories, nprod, nmsgs int, seed int64, w *v
 			}()
 		}
 		wg.Wait()
-		q := waitQuiescent(pid, 3*time.Second)
+		qd := 3 * time.Second
+		if mode >= 2 {
+			qd = 300 * time.Millisecond // a stopped actor may legitimately keep undelivered messages
+		}
+		q := waitQuiescent(pid, qd)
 		qi := 0
 		if q {
 			qi = 1
-		} else {
+		} else if mode < 2 {
 			st.NotIdle++
 		}
 		w.Emit(map[string]any{"ev": "End", "id": qi, "g": 0, "t": ""})
@@ -460,7 +534,8 @@ func main() {
 		}
 		budget, _ := strconv.Atoi(os.Args[7])
 		sys := mk(budget)
-		stress(sys, histories, nprod, nmsgs, seed, w, os.Args[8], os.Args[9] == "1", st)
+		mode, _ := strconv.Atoi(os.Args[9])
+		stress(sys, histories, nprod, nmsgs, seed, w, os.Args[8], mode, st)
 		st.Events = w.Count()
 		w.Close()
 		_ = sys.Stop(ctx)
